@@ -428,6 +428,65 @@ def t11(F, rep):
     rep.floor("T11", "reader-source-reads", n, 1)
 
 
+def t12(F, rep):
+    """parse_deflate looks at its input through the reader only.  (a) The slice is used for nothing but `Cursor::new`: a test on
+    the length of the whole buffer makes the verdict on a stream depend on the unrelated bytes behind it.  (b) The block loop
+    is left — other than by an error — only because the block just read was the final one: any other bound returns Ok with the
+    plaintext and the consumed length of a prefix of the stream.  (c) It constructs no error of its own."""
+    from .. import err, lin
+    b = F.body(P + "process::parse_deflate")
+    where = "%s:%s" % (b.file, b.line)
+    other = []
+    for u in flow.uses(b, 1):
+        if u[0] == "stmt":
+            s0 = u[3]
+            if s0["k"] == "assign" and s0["r"]["k"] in ("use", "ref", "cast") and not s0["p"]["p"]:
+                # a copy / reborrow: must end in Cursor::new as well
+                for u2 in flow.uses(b, s0["p"]["l"]):
+                    if u2[0] == "stmt":
+                        s1 = u2[3]
+                        if s1["k"] == "assign" and s1["r"]["k"] in ("use", "ref", "cast") and not s1["p"]["p"]:
+                            continue
+                        other.append(flow.describe_rvalue(b, s1["r"], names=True)[:80])
+                    elif u2[2]["k"] == "call" and not strip_generics(callee_def(u2[2])).endswith("Cursor::new") and u2[2]["k"] != "drop":
+                        other.append(strip_generics(callee_def(u2[2])))
+            else:
+                other.append(flow.describe_rvalue(b, s0["r"], names=True)[:80] if s0["k"] == "assign" else s0["k"])
+        elif u[2]["k"] == "call" and not strip_generics(callee_def(u[2])).endswith("Cursor::new"):
+            other.append(strip_generics(callee_def(u[2])))
+    rep.add("T12", "input-only-through-the-reader", not other, where, "uses of the input slice other than Cursor::new: %s" % other)
+    rb = [bb for bb, t in b.calls() if strip_generics(callee_def(t)).endswith("::read_block")]
+    ok_loop, why = False, "no read_block call"
+    if len(rb) == 1:
+        heads = lin.loop_heads(b)
+        loops = [lin.natural_loop(b, h, heads[h]) for h in heads if rb[0] in lin.natural_loop(b, h, heads[h])]
+        if len(loops) == 1:
+            L = loops[0]
+            exits = []
+            for x in sorted(L):
+                st = b.term(x)
+                if st["k"] != "switch":
+                    continue
+                out = [y for y in [z for _, z in st["targets"]] + [st["otherwise"]] if y not in L]
+                if not out:
+                    continue
+                p0 = op_place(st["d"])
+                d0 = b.single_def(p0["l"]) if p0 is not None and not p0["p"] else None
+                if d0 and d0[2] == "assign" and d0[3]["k"] == "discr":
+                    continue                         # the `?` of read_block
+                if st.get("exp") and any("Loop" in e or "QuestionMark" in e for e in st["exp"]) and flow.describe(b, st["d"], names=True) in ("var(last)", "Not(var(last))"):
+                    exits.append("last")
+                    continue
+                exits.append(flow.describe(b, st["d"], names=True)[:100])
+            ok_loop = bool(exits) and all(e in ("last", "var(last)", "Not(var(last))") for e in exits)
+            why = "non-error exits of the block loop: %s" % exits
+        else:
+            why = "read_block is not inside exactly one loop"
+    rep.add("T12", "block-loop-ends-on-the-final-block-only", ok_loop, where, why)
+    own = err.own_errors(F, b)
+    rep.add("T12", "no-error-of-its-own", not own, where, "errors constructed by parse_deflate itself: %s" % own)
+
+
 def run(ctx, rep):
     F = ctx.lib
     rep.explanation = ("The decoder's data (RFC 1951 tables, counts, fixed-Huffman map, repeat codes, header field widths) is compared with a "
@@ -447,6 +506,7 @@ def run(ctx, rep):
     t6(F, rep)
     t7(F, rep)
     t11(F, rep)
+    t12(F, rep)
     t8(F, rep)
     t9(F, rep)
     # T10: what is decoded is the caller's byte string from its first byte (no header guessed away in front of it), and the
